@@ -77,7 +77,8 @@ def make_ss_encoder_job(N, kind, mode):
         def rp(m):
             return {'entry': 'ss_chunk_limit', 'N': N, 'kind': kind, 'mode': mode, 'len': (m.get('item') or {}).get('len', 0), 'limit': limit}
         for p in paths + second:
-            ctx.absorb(ex, [p])
+            # engine-level violations in the encoder (slice / capacity preconditions): replayed on the real encoder with 1..17 spare bytes
+            ctx.absorb(ex, [p], replay_of=lambda v: {'entry': 'ss_encode_capacity', 'N': N, 'kind': kind, 'mode': mode})
             if p.status != 'return':
                 continue
             okc = p.ret.disc == 0
